@@ -12,7 +12,7 @@ P = {
         "name": "chains", "pkg": "./internal/rules", "test": "TestVerifC04",
         "overlay": {"internal/rules/zz_verif_c04_test.go": "c04/c04_test.go"},
         "eval_module": "Run.Eval_C04", "check_term": "check",
-        "n_quick": 2500, "n_thorough": 40000, "findings": {},
+        "n_quick": 4000, "n_thorough": 60000, "findings": {},
     }],
     "rule": "chains (1-8) of real authenticators (anonymous, unauthorized, basic_auth, jwt, oauth2_introspection, generic; remote "
             "endpoint up/refusing/5xx/garbage; fallback flag from the prototype or a rule-level override) built by the real mechanism "
@@ -45,7 +45,7 @@ P = {
                   "earlier ones had no credentials or opted in, and a non-opted-in failure on presented credentials ends authentication "
                   "whatever follows. Per authenticator type a classification table over credential shapes is proved to answer "
                   "'no credentials' exactly when no credentials of the kind are present. Both levels are tied to the code by running "
-                  "~2500 (quick) / 40000 (thorough) chains of real authenticators against local JWKS/introspection/identity servers.",
+                  "~4000 (quick) / 60000 (thorough) chains of real authenticators against local JWKS/introspection/identity servers.",
     "level_note": "Chain level: full proof over abstract outcomes. Type level: proof over a finite shape space chosen by reading the six "
                   "authenticators and five extractors; shapes outside it (e.g. custom source lists, metadata discovery, timeouts, caches "
                   "enabled) are not covered. Design decisions of heimdall that the classification records and the property text allows: "
